@@ -34,12 +34,19 @@ fn main() {
                 if out.status.code().is_some() {
                     println!("{}", lines.last().copied().unwrap_or("NOT-REPLAYABLE no output"));
                 } else {
+                    use std::os::unix::process::ExitStatusExt;
+                    let sig = out.status.signal().unwrap_or(0);
+                    // Cranelift's trap is an undefined instruction (SIGILL) or a breakpoint (SIGTRAP); SIGSEGV / SIGBUS
+                    // mean the compiled code really touched memory it does not own
+                    let trap = w.engine == step::Engine::Clif && (sig == 4 || sig == 5);
                     let expect = lines.iter().rev().find(|l| l.starts_with("EXPECT-")).copied().unwrap_or("EXPECT-UNKNOWN");
                     let run = lines.iter().rev().find(|l| l.starts_with("RUN ")).copied().unwrap_or("RUN ?");
-                    match expect {
-                        "EXPECT-ERR" => println!("NOT-REPRODUCED the real {:?} engine trapped / crashed ({}) where the ISA prescribes an error", w.engine, run),
-                        "EXPECT-OK" => println!("REPRODUCED the ISA prescribes normal continuation, the real {:?} engine trapped / crashed the process during {} (status {:?})", w.engine, run, out.status),
-                        _ => println!("NOT-REPLAYABLE the real {:?} engine died during {} and the witness involves the stack (its address is only known after a run)", w.engine, run),
+                    match (expect, trap) {
+                        ("EXPECT-ERR", true) => println!("NOT-REPRODUCED the real Cranelift code trapped (signal {}, {}) where the ISA prescribes an error", sig, run),
+                        ("EXPECT-ERR", false) if w.engine == step::Engine::Clif => println!("REPRODUCED the ISA prescribes an error BEFORE the access (trap); the real Cranelift code performed a wild access instead (signal {}, {})", sig, run),
+                        ("EXPECT-ERR", false) => println!("NOT-REPRODUCED the real {:?} code crashed (signal {}, {}) on an access the ISA calls out of bounds (outside the claim: the JIT does not check bounds)", w.engine, sig, run),
+                        ("EXPECT-OK", _) => println!("REPRODUCED the ISA prescribes normal continuation, the real {:?} engine trapped / crashed the process (signal {}) during {}", w.engine, sig, run),
+                        _ => println!("NOT-REPLAYABLE the real {:?} engine died (signal {}) during {} and the witness involves the stack (its address is only known after a run)", w.engine, sig, run),
                     }
                 }
             }
